@@ -143,7 +143,7 @@ Print Assumptions c09_borrow_eval.
      e-mode first transit 0.8075 -> kept; exactly at the threshold (0.5 vs 0.5) -> kept, one
      unit in the last place above -> seized; the pool short of the collateral -> error *)
 Definition c09_ex_borrow (bridged denom : Z) (emode : bool) (thr : Z) (pool_bal : Z) : borrow_in :=
-  mkBorrowIn 7 true false true false true 100000000 40000000 0 (Some 1600000) 1000000 (Some 2000000) 1000000
+  mkBorrowIn 7 true false true false true false 100000000 40000000 0 (Some 1600000) 1000000 (Some 2000000) 1000000
              thr 950000000000000000 emode bridged denom 3 850000000000000000 750000000000000000
              true true false pool_bal 100000000 false.
 Example c09_safe_borrow_nonvacuous :
@@ -387,11 +387,11 @@ Proof. exact v2_hook_borrow_block. Qed.
 Print Assumptions c09_v2_hook_borrow_block.
 
 (* the hypothesis "vf x = VSeize" of the borrow liveness theorems below, in the property's terms:
-   OUTSIDE the known-finding class C09-F5 the visit of a borrow seizes it as soon as the property's
+   OUTSIDE the known-finding classes C09-F5 / C09-F6 the visit of a borrow seizes it as soon as the property's
    hypotheses hold (the borrow is open, kill switch off, liquidation whitelisted for the app with
    an auction type activated, prices active = ratio computable) and it is above its threshold *)
 Theorem c09_live_borrow_verdict : forall b,
-  live_hyp_borrow b = true -> borrow_unsafe b = true -> kf_C09_5 b = false ->
+  live_hyp_borrow b = true -> borrow_unsafe b = true -> kf_C09_5 b = false -> kf_C09_6 b = false ->
   seize_rule_borrow GB2 b = VSeize.
 Proof. exact live_borrow_verdict. Qed.
 Print Assumptions c09_live_borrow_verdict.
@@ -415,6 +415,31 @@ Proof.
   vm_compute. discriminate.
 Qed.
 Print Assumptions c09_live_borrow_pool_short_refuted.
+
+(* ---- refuted inside the class C09-F6: every hypothesis of the property holds and the borrow is
+   above its threshold, but its interest update panics (ReserveGlobalIndex 0): the visit panics (the
+   sweep's wrapper rolls it back), NO sweep ever seizes the borrow and the liquidate message panics ---- *)
+Definition c09_ex_borrow_f6 : borrow_in :=
+  mkBorrowIn 7 true false true false false true 100000000 40000000 0 (Some 1600000) 1000000 (Some 2000000) 1000000
+             550000000000000000 950000000000000000 false 5 3 3 850000000000000000 750000000000000000
+             true true false 100000000 100000000 false.
+Theorem c09_live_borrow_interest_refuted :
+  let b := c09_ex_borrow_f6 in
+  live_hyp_borrow b = true /\ borrow_unsafe b = true /\ kf_C09_6 b = true /\
+  seize_rule_borrow GB2 b = VPanic /\
+  msg_liquidate GB2 [pos_of_borrow GB2 b] (b_id b) = Panic /\
+  (forall bs cap off batch r, NoDup (map b_id bs) -> In b bs ->
+     sweep_one GB2 0 (map (pos_of_borrow GB2) bs) cap (zlen bs) off batch = Ok r -> ~ In (b_id b) (r_seized r)).
+Proof.
+  cbn zeta.
+  split; [vm_compute; reflexivity|]. split; [vm_compute; reflexivity|].
+  split; [vm_compute; reflexivity|]. split; [vm_compute; reflexivity|].
+  split; [vm_compute; reflexivity|].
+  intros bs cap off batch r Hnd Hb H.
+  apply (not_seize_never GB2 bs cap off batch r _ ltac:(discriminate) Hnd Hb); [|exact H].
+  vm_compute. discriminate.
+Qed.
+Print Assumptions c09_live_borrow_interest_refuted.
 
 (* quiet chain: a borrow that is above its threshold (verdict VSeize: liquidation enabled, prices
    active, controls off) in every block is liquidated within (n-1)/batch + 2 blocks, whatever the
